@@ -24,6 +24,9 @@ mod resp;
 mod tbl;
 mod uint;
 
+#[global_allocator]
+static GLOBAL: blk::Counting = blk::Counting;
+
 pub struct Rng(pub u64);
 impl Rng {
     pub fn next(&mut self) -> u64 {
